@@ -94,4 +94,43 @@ def parseCall {Doc R} (decls : Doc → NsMap) (bind : Doc → R) (p : ParserInst
   | none => (⟨registerAll [] (decls doc)⟩, bind doc, none)
   | some m => (p, bind doc, some (registerAll m (decls doc)))
 
+/-- a whole history of parses on one parser instance: per call the result and the
+caller's map afterwards; finally the instance -/
+def recRun {Doc R} (decls : Doc → NsMap) (bind : Doc → R) :
+    ParserInst → List (Doc × Option NsMap) → ParserInst × List (R × Option NsMap)
+  | p, [] => (p, [])
+  | p, (d, arg) :: rest =>
+    let (p1, r, m) := parseCall decls bind p d arg
+    let (p2, outs) := recRun decls bind p1 rest
+    (p2, (r, m) :: outs)
+
+/-! #### the test documents of the `rec.run` correspondence
+
+`rec_doc(decls)` (harness) writes the declarations in order on nested elements
+`<r …><k …><k …>…`, opening a new `k` whenever a prefix repeats; parsed into a
+wildcard root, the result is the chain of the `k` elements' qualified names —
+a function of the document alone. -/
+
+def recGroupsAux : NsMap → NsMap → List NsMap → List NsMap
+  | [], cur, acc => (cur :: acc).reverse
+  | (p, u) :: rest, cur, acc =>
+    if (cur.lookup p).isSome then recGroupsAux rest [(p, u)] (cur :: acc)
+    else recGroupsAux rest (cur ++ [(p, u)]) acc
+
+def recGroups (decls : NsMap) : List NsMap := recGroupsAux decls [] []
+
+def recBindAux (dflt : Option Str) : List NsMap → List Str
+  | [] => []
+  | g :: gs =>
+    let d := match g.lookup none with
+      | some u => some u
+      | none => dflt
+    qn d "k".toList :: recBindAux d gs
+
+/-- the qualified names of the nested `k` elements, outermost first -/
+def recBind (decls : NsMap) : List Str :=
+  match recGroups decls with
+  | [] => []
+  | g0 :: gs => recBindAux (g0.lookup none) gs
+
 end Xs.Ctx
